@@ -7,7 +7,7 @@
    schedule of all the goroutines holding ends of the streams; the arguments [ch] of
    ORecv / OFwd are the outcomes of Go's [select]s.  "forall fuel ops" therefore quantifies
    over every tree, every item sequence, every capacity and every interleaving. *)
-From Eino Require Import Base.Util Model.Stream Proofs.Stream Proofs.StreamRel Proofs.StreamWf Proofs.StreamClose Proofs.StreamLink Proofs.StreamSem.
+From Eino Require Import Base.Util Model.Stream Proofs.Stream Proofs.StreamRel Proofs.StreamWf Proofs.StreamClose Proofs.StreamLink Proofs.StreamSem Proofs.StreamEof.
 
 (* ------------------------------------------------------------------ base streams *)
 
@@ -150,6 +150,46 @@ Theorem copy_child_prefix_of_source : forall fuel ops bs G,
 Proof. exact run_copy_child_link. Qed.
 Print Assumptions copy_child_prefix_of_source.
 
+(* tree_delivery_full: a reader on which Recv has returned io.EOF has received a *complete*
+   interleaving of its strands — every item accepted by every pipe it derives from, every
+   array element, through every conversion, exactly once and in order.  In particular every
+   copy that reads to EOF receives the whole sequence, however the reads and closes of the
+   other copies interleave.  (The strands are those of the final state: after EOF the pipes
+   are send-closed, nothing more can be accepted.) *)
+Theorem tree_delivery_full : forall fuel ops bs G,
+  run fuel init_state ops = (bs, G) -> legal_run fuel ops ->
+  forall h H, nth_error (st_handles G) h = Some H -> h_live H = true -> h_eof H = true ->
+  forall N strs, strands N G (cur_w G) (h_rd H) = Some strs ->
+    Shuf true (h_got H) strs /\ is_interleaving_of true (h_got H) strs = true.
+Proof. exact run_tree_delivery_full. Qed.
+Print Assumptions tree_delivery_full.
+
+(* merge_eof_after_all_sources: a merged reader returns io.EOF only after every one of its
+   source streams has ended: sender side closed, every accepted item delivered, and — for a
+   stream fed by a forwarder goroutine — the forwarder stopped because its own source
+   returned io.EOF (not because it was told closed). *)
+Theorem merge_eof_after_all_sources : forall fuel ops bs G,
+  run fuel init_state ops = (bs, G) -> legal_run fuel ops ->
+  forall h H sts ch, nth_error (st_handles G) h = Some H -> h_live H = true -> h_eof H = true ->
+    h_rd H = RMul sts ch ->
+    ch = [] /\ forall sid, In sid sts ->
+      exists s, nth_error (streams (st_store G)) sid = Some s /\ s_sclosed s = true /\ s_buf s = []
+                /\ s_deliv s = s_sent s
+                /\ forall F, In F (st_fwds G) -> f_dst F = sid -> f_eof F = true.
+Proof. exact run_merge_eof. Qed.
+Print Assumptions merge_eof_after_all_sources.
+
+(* copy_each_child_full: a copy that read to io.EOF has received the whole shared list, and
+   that list is everything the source reader delivered up to its own end of stream *)
+Theorem copy_each_child_full : forall fuel ops bs G,
+  run fuel init_state ops = (bs, G) -> legal_run fuel ops ->
+  forall h H p i P, nth_error (st_handles G) h = Some H -> h_live H = true -> h_eof H = true ->
+    h_rd H = RChild p i -> nth_error (parents (st_store G)) p = Some P ->
+    h_got H = p_items P /\ p_eof P = true
+    /\ Link (st_store G) (p_src P) (p_items P) /\ EofR (st_store G) (st_fwds G) (p_src P).
+Proof. exact run_copy_child_full. Qed.
+Print Assumptions copy_each_child_full.
+
 (* ------------------------------------------------------------------ non-vacuity *)
 
 (* a run with a pipe, a conversion, a copy, a merge through forwarders, sends and receives:
@@ -157,14 +197,35 @@ Print Assumptions copy_child_prefix_of_source.
 Definition ex_ops : list op :=
   [ OPipe 2; OSend 0 (IVal 1%N); OSend 0 (IVal 2%N); OCloseSend 0;
     OConv 0 (fun v => if N.eqb v 1 then CSkip else CVal (v + 10)%N);
-    OCopy 1 2; ORecv 2 []; ORecv 2 []; ORecv 3 [];
-    OArray [7%N; 8%N]; OMerge [3; 4]; OFwd 0 []; OFwd 0 []; ORecv 5 [0]; ORecv 5 [0] ].
+    OCopy 1 2; ORecv 2 []; ORecv 2 [];
+    OArray [7%N; 8%N]; OMerge [3; 4]; OFwd 0 []; OFwd 0 []; ORecv 5 [0]; ORecv 5 [0]; ORecv 5 [0];
+    OFwd 0 []; OFwd 0 []; ORecv 5 [0]; OClose 5; OClose 2 ].
 
 Example ex_run_obs :
   fst (run 50 init_state ex_ops) =
   [ BNew [0]; BSend SOk; BSend SOk; BSend SOk; BNew [1]; BNew [2; 3];
-    BRecv (PItem (IVal 12%N)); BRecv PEOF; BRecv (PItem (IVal 12%N));
-    BNew [4]; BNew [5]; BStep; BStep; BRecv (PItem (IVal 7%N)); BRecv (PItem (IVal 8%N)) ].
+    BRecv (PItem (IVal 12%N)); BRecv PEOF; BNew [4]; BNew [5]; BStep; BStep;
+    BRecv (PItem (IVal 12%N)); BRecv (PItem (IVal 7%N)); BRecv (PItem (IVal 8%N));
+    BStep; BStep; BRecv PEOF; BClose ClOk; BClose ClOk ].
+Proof. vm_compute. reflexivity. Qed.
+
+(* the example run is legal; the merged reader (handle 5: a forwarder over a copy of a
+   converted pipe, merged with an array) read to EOF what its strands hold *)
+Example ex_legal : legal_run 50 ex_ops.
+Proof. apply run_legalb_sound. vm_compute. reflexivity. Qed.
+
+Example ex_strands :
+  let G := snd (run 50 init_state ex_ops) in
+  option_map (fun H => (h_got H, h_live H, h_eof H, strands 20 G (cur_w G) (h_rd H))) (nth_error (st_handles G) 5)
+  = Some ([IVal 12%N; IVal 7%N; IVal 8%N], true, true, Some [[IVal 12%N]; [IVal 7%N; IVal 8%N]]).
+Proof. vm_compute. reflexivity. Qed.
+
+(* after both derived readers are closed: every stream receive-closed once, the copy parent
+   closed its source once, the forwarder has finished *)
+Example ex_closed :
+  let G := snd (run 50 init_state ex_ops) in
+  (map s_rclosed (streams (st_store G)), map p_srcclosed (parents (st_store G)), map f_st (st_fwds G))
+  = ([1; 1; 1], [1], [FDone]).
 Proof. vm_compute. reflexivity. Qed.
 
 Example ex_array_merge :
@@ -173,17 +234,3 @@ Example ex_array_merge :
      BRecv (PItem (IVal 3%N)); BRecv (PItem (IVal 2%N)); BRecv PEOF].
 Proof. vm_compute. reflexivity. Qed.
 
-(* the example run is legal, and its merged reader's strands are computed *)
-Example ex_legal : legal_run 50 ex_ops.
-Proof.
-  unfold legal_run, ex_ops. cbn -[N.eqb N.add].
-  repeat split; try (intros H0 E; inversion E; subst; split; reflexivity);
-    try (intros H0 E; inversion E; subst; reflexivity);
-    try (intros _; repeat constructor; intros H0 E; inversion E; subst; split; reflexivity).
-Qed.
-
-Example ex_strands :
-  let G := snd (run 50 init_state ex_ops) in
-  option_map (fun H => (h_got H, strands 20 G (cur_w G) (h_rd H))) (nth_error (st_handles G) 5)
-  = Some ([IVal 7%N; IVal 8%N], Some [[IVal 12%N]; [IVal 7%N; IVal 8%N]]).
-Proof. vm_compute. reflexivity. Qed.
